@@ -42,7 +42,7 @@ theorem print_total_cmd (o : Opts) (hr : refuse o = false) (c : Cmd) (hw : c.wf 
     ∃ b, printCmd o c = .ok b := by
   unfold printCmd
   simp only [hr, Bool.false_eq_true, ↓reduceIte]
-  exact ⟨_, (Inv.command c 0 _ (Inv.init o) hw).finish⟩
+  exact ⟨_, (Inv.command c 0 _ (⟨rfl, rfl⟩ : Inv 0 { (P.init o) with firstLine := false }) hw).finish⟩
 
 /-- The same for a word printed on its own. -/
 theorem print_total_word (o : Opts) (hr : refuse o = false) (w : Word) (hw : w.wf = true) :
@@ -56,15 +56,18 @@ theorem print_total_word (o : Opts) (hr : refuse o = false) (w : Word) (hw : w.w
 /-! ## Round trip -/
 
 /-- The full statement: every option set (KeepPadding is not in the model), every assignment of
-    positions.  It is false of the model and of the code (see `roundtrip_fails_singleLine`), so
-    it stays a definition; the theorems below give the parts that hold. -/
+    positions.  It is false of the model: with positions no parser assigns the printer glues two
+    parentheses (see `roundtrip_fails_positions`), so it stays a definition; the theorems below
+    give the parts that hold.  (The SingleLine defect that used to refute it for parser-assigned
+    positions — `{ a & }` NEWLINE `b` printed `{ a & } b`, known finding
+    C01-single-missing-semicolon — is repaired in the code and in the model: `singleLine_repaired`.) -/
 def roundtrip_statement : Prop :=
   ∀ (o : Opts) (l : Lang) (f : File) (b : Bytes), f.wf = true → printFile o f = .ok b →
     ∃ f', parse l b = .ok f' ∧ f'.norm = f.norm
 
-/-! ### The recorded SingleLine defect, on the model (known finding C01-single-missing-semicolon) -/
-
 private def w1 (line : Nat) (s : String) : Word := ⟨[.lit ⟨0, line, 1⟩ ⟨1, line, 2⟩ (bytesOfString s)]⟩
+
+/-! ### The repaired SingleLine defect (fixed finding C01-single-missing-semicolon) -/
 
 /-- `{ a & }` NEWLINE `b` -/
 def singleLineWitness : File :=
@@ -72,10 +75,17 @@ def singleLineWitness : File :=
       (.block ⟨0, 1, 1⟩ ⟨6, 1, 7⟩ (.cons (.mk ⟨2, 1, 3⟩ ⟨4, 1, 5⟩ false true (.call [w1 1 "a"])) .nil)))
     (.cons (.mk ⟨8, 2, 1⟩ Pos.zero false false (.call [w1 2 "b"])) .nil)⟩
 
-/-- SingleLine prints `{ a & } b`: no separator before `b`, because `wroteSemi` is still set by
-    the `&` inside the block. -/
-theorem singleLine_output :
-    printFile { singleLine := true } singleLineWitness = .ok (bytesOfString "{ a & } b\n") := by
+/-- SingleLine now prints `{ a & }; b`: `stmtEnd` clears `wroteSemi` when the statement itself
+    writes no terminator, so the `&` inside the block no longer suppresses the `;`. -/
+theorem singleLine_repaired :
+    printFile { singleLine := true } singleLineWitness = .ok (bytesOfString "{ a & }; b\n") := by
+  decide +kernel
+
+/-- … and that output parses back to the same tree -/
+theorem singleLine_repaired_roundtrip :
+    (match parse .bash (bytesOfString "{ a & }; b\n") with
+      | .ok f => f.norm.beq singleLineWitness.norm
+      | .error _ => false) = true := by
   decide +kernel
 
 /-- the parser answers with a syntax error -/
@@ -83,16 +93,33 @@ def isSyntaxError : Except ParseErr File → Bool
   | .error (.syntax _) => true
   | _ => false
 
-/-- … and that output is a syntax error for the model parser as for the Go parser. -/
-theorem singleLine_output_rejected :
-    isSyntaxError (parse .bash (bytesOfString "{ a & } b\n")) = true := by
+/-! ### Arbitrary positions: the all-positions statement is false -/
+
+/-- `( (a) )` whose outer parenthesis claims line 5 and whose inner statement claims line 3 -/
+def scrambledWitness : File :=
+  ⟨.cons (.mk ⟨0, 5, 1⟩ Pos.zero false false
+      (.subshell ⟨0, 5, 1⟩ ⟨6, 5, 7⟩ (.cons (.mk ⟨2, 3, 3⟩ Pos.zero false false
+         (.subshell ⟨2, 3, 3⟩ ⟨4, 3, 5⟩ (.cons (.mk ⟨3, 3, 4⟩ Pos.zero false false (.call [w1 3 "a"])) .nil))) .nil))) .nil⟩
+
+/-- The printer writes `((a) )`: `subshellOpen` sees the inner statement on another line than
+    `(` and counts on a line break, which `newlines` does not make because the line is earlier. -/
+theorem scrambled_output : printFile {} scrambledWitness = .ok (bytesOfString "((a) )\n") := by
   decide +kernel
 
-/-- Hence the full statement is false: the witness is well-formed, prints, and does not re-parse. -/
-theorem roundtrip_fails_singleLine : ¬ roundtrip_statement := by
+def isOk : Except ParseErr File → Bool
+  | .ok _ => true
+  | _ => false
+
+/-- `((` starts an arithmetic command in Bash; the model parser leaves the fragment -/
+theorem scrambled_output_rejected : isOk (parse .bash (bytesOfString "((a) )\n")) = false := by
+  decide +kernel
+
+/-- Hence the all-positions statement is false; `posMono` below is the hypothesis that excludes
+    such trees (the parser never builds them). -/
+theorem roundtrip_fails_positions : ¬ roundtrip_statement := by
   intro h
-  obtain ⟨f', hf', _⟩ := h { singleLine := true } .bash singleLineWitness _ (by decide +kernel) singleLine_output
-  have := singleLine_output_rejected
+  obtain ⟨f', hf', _⟩ := h {} .bash scrambledWitness _ (by decide +kernel) scrambled_output
+  have := scrambled_output_rejected
   rw [hf'] at this
   cases this
 
@@ -236,24 +263,23 @@ example : ∃ f : File, f.wf = true ∧ f.stmts.flat = true ∧ f.stmts ≠ .nil
 /-! ## Stated, not proved
 
   The printer half of the round trip and two parser facts.  They are definitions, not theorems:
-  nothing below is claimed.  `print_in_Prints_statement` carries the two side conditions that
-  modelling showed to be necessary; on every run the `specrt` ops check it by execution on the
+  nothing below is claimed.  `print_in_Prints_statement` carries the side condition (`posMono`) that
+  modelling showed to be necessary (the second one, `noStale`, went away with the repair of
+  C01-single-missing-semicolon); on every run the `specrt` ops check it by execution on the
   generated in-fragment inputs (model and Go code side by side). -/
 
 /-- the printer half: what today's printer writes is a concrete syntax of the tree -/
 def print_in_Prints_statement : Prop :=
-  ∀ (o : Opts) (f : File) (b : Bytes), f.wf = true → posMono f → (o.singleLine = true → f.stmts.noStale = true) →
-    printFile o f = .ok b → Prints f b
+  ∀ (o : Opts) (f : File) (b : Bytes), f.wf = true → posMono f → printFile o f = .ok b → Prints f b
 
 /-- what `print_in_Prints` and `parse_of_Prints` give together -/
 def roundtrip_partial_statement : Prop :=
-  ∀ (o : Opts) (l : Lang) (f : File) (b : Bytes), f.wf = true → posMono f →
-    (o.singleLine = true → f.stmts.noStale = true) → printFile o f = .ok b →
+  ∀ (o : Opts) (l : Lang) (f : File) (b : Bytes), f.wf = true → posMono f → printFile o f = .ok b →
     ∃ f', parse l b = .ok f' ∧ f'.norm = f.norm
 
 /-- `parse_of_Prints` reduces the second statement to the first -/
 theorem roundtrip_partial_of_print_in_Prints (h : print_in_Prints_statement) : roundtrip_partial_statement :=
-  fun o l f b hw hm hs hp => parse_of_Prints l f b (h o f b hw hm hs hp)
+  fun o l f b hw hm hp => parse_of_Prints l f b (h o f b hw hm hp)
 
 /-- fuel `|tokens|·6 + 8` is never used up, on any input -/
 def fuel_sufficient_statement : Prop :=
@@ -264,12 +290,13 @@ def fuel_sufficient_statement : Prop :=
 def parse_WF_statement : Prop :=
   ∀ (l : Lang) (b : Bytes) (f : File), parse l b = .ok f → f.wf = true ∧ posMono f
 
-/-- the SingleLine witness is excluded by `noStale`, as it must be -/
-example : singleLineWitness.stmts.noStale = false := by decide +kernel
+/-- the scrambled witness is excluded by `posMono`, as it must be -/
+example : ¬ posMono scrambledWitness := by
+  unfold posMono
+  decide +kernel
 
 /-- the hypotheses of the partial statement are satisfiable: `a b; ( c && d ) | { e; }` -/
-example : ∃ f, parse .bash (bytesOfString "a b; ( c && d ) |\n{ e; }\n! 'x y' &\n") = .ok f ∧ f.wf = true ∧
-    f.stmts.noStale = true := by
+example : ∃ f, parse .bash (bytesOfString "a b; ( c && d ) |\n{ e; }\n! 'x y' &\n") = .ok f ∧ f.wf = true := by
   cases h : parse .bash (bytesOfString "a b; ( c && d ) |\n{ e; }\n! 'x y' &\n") with
   | error e =>
     have : isSyntaxError (parse .bash (bytesOfString "a b; ( c && d ) |\n{ e; }\n! 'x y' &\n")) = false ∧
@@ -280,7 +307,7 @@ example : ∃ f, parse .bash (bytesOfString "a b; ( c && d ) |\n{ e; }\n! 'x y' 
   | ok f =>
     refine ⟨f, rfl, ?_⟩
     have : (match parse .bash (bytesOfString "a b; ( c && d ) |\n{ e; }\n! 'x y' &\n") with
-        | .ok f => f.wf && f.stmts.noStale | _ => false) = true := by decide +kernel
+        | .ok f => f.wf | _ => false) = true := by decide +kernel
     rw [h] at this
     simpa using this
 
